@@ -199,7 +199,7 @@ func genCase(t *rapid.T) Case {
 		} else {
 			c.Gs = []model.G{*genGeom(t, std, 3, gen.NoNaN)}
 		}
-		c.Deep = rapid.SampledFrom([]int{0, 0, 0, 0, 0, 0, 0, 0, 0, 0, 0, 0, 5, 16, 31, 32, 33, 34, 64, 65, 130, 257}).Draw(t, "deep")
+		c.Deep = rapid.SampledFrom([]int{0, 0, 0, 0, 0, 0, 0, 0, 0, 0, 0, 0, 5, 16, 31, 32, 33, 34, 64, 65, 130, 257, 1000, 1030}).Draw(t, "deep")
 	case "extend":
 		n := rapid.IntRange(1, 6).Draw(t, "n")
 		for i := 0; i < n; i++ {
